@@ -10,7 +10,10 @@
    work on its own state, and the 2D vorticity convection does no work against the vorticity (enstrophy) nor against the stream function
    (energy) - for every state.  Proof: triple sums over a + m + c = 0 in the band are symmetric under permuting the slots (reflection of the
    band) and a derivative symbol is additive, phi(a) + phi(m) + phi(c) = 0.
-   NOT proved here (checked on the real code by the witness oracle): energy neutrality of the 3D rotational form (u . (u x curl u) = 0). *)
+   The Leray-projected 3D rotational form does no work on divergence-free band-limited states (a . (a x b) = 0 for the band triple sums and
+   <u, grad p> = -<div u, p> = 0).
+   NOT proved here (checked on the real code by the witness oracle): that the real-field pairing of the implementation (irfftn / Parseval with
+   half-spectrum weights, C16/C17) is this bilinear pairing, and rounding. *)
 From Coq Require Import ZArith QArith List Bool Lia.
 From EXV Require Import Base.Scalar Base.FieldLemmas Spectral.Symbols Layout.Freq DFT.DFT1 Nonlin.Conv Nonlin.Terms ETDRK.Phi Gen.ETDRK
   Steppers.Conservation Nonlin.MeanFree Nonlin.Energy.
@@ -95,6 +98,16 @@ Theorem C09_vorticity_convection_does_no_work : forall (F : FieldT) (D : nat) (N
   /\ pairing F D Kc (fun k => inv_lap_one F ii s D k * msk F Kc w k) (vorticity_conv F (prod2 F D N Kc) ii s D b w) = 0.
 Proof. intros. apply (vorticity_conv_no_work F D N Kc); assumption. Qed.
 Print Assumptions C09_vorticity_convection_does_no_work.
+
+(* 3D rotational convection u x curl u with Leray projection: no work on divergence-free band-limited states *)
+Theorem C09_rotational_convection_does_no_work : forall (F : FieldT) (N Kc : Z) (ii s : F) (u0 u1 u2 : field F),
+  (0 < N)%Z -> (0 <= Kc)%Z -> (3 * Kc < N)%Z ->
+  (forall m, in_band Kc m = true -> dc F ii s 0 m * u0 m + dc F ii s 1 m * u1 m + dc F ii s 2 m * u2 m = 0) ->
+  let Nl := projected_conv F (prod2 F 3 N Kc) ii s 3 [u0; u1; u2] in
+  pairing F 3 Kc (msk F Kc u0) (nth 0 Nl (fzero F)) + pairing F 3 Kc (msk F Kc u1) (nth 1 Nl (fzero F))
+  + pairing F 3 Kc (msk F Kc u2) (nth 2 Nl (fzero F)) = 0.
+Proof. intros. apply projected_conv_no_work; assumption. Qed.
+Print Assumptions C09_rotational_convection_does_no_work.
 
 (* every order leaves a mode unchanged where the propagator is 1 and the nonlinear term vanishes for every input *)
 Theorem C09_mean_preserved : forall (F : FieldT) (I : Type) (k0 : I) (E Eh c1 c2 c3 c4 c5 c6 : I -> F) (N : (I -> F) -> (I -> F)),
